@@ -338,6 +338,48 @@ pub fn run(ctx: &Ctx) -> Outcome {
             ctx.violation(class, summary, json!({"hex": core::hex(&doc)}));
         }
     }
+    // binary strings: every string of length 0..=2 over all 256 byte values, as a bare value, as
+    // the only list element, as a dictionary value and as a dictionary key (every byte value in
+    // first and in last position of a document's last / only string)
+    let firsts: Vec<usize> = (0..=256).collect();
+    let bin_res = core::par_map(&firsts, |_| (), |_, _, a| {
+        let mut n = 0u64;
+        let mut bad = vec![];
+        let mut strs: Vec<Vec<u8>> = vec![];
+        if *a == 256 {
+            strs.push(vec![]);
+            strs.extend((0..=255u8).map(|b| vec![b]));
+        } else {
+            strs.extend((0..=255u8).map(|b| vec![*a as u8, b]));
+        }
+        for st in strs {
+            let forms = [
+                V::Str(st.clone()),
+                V::List(vec![V::Str(st.clone())]),
+                V::Dict(vec![(b"k".to_vec(), V::Str(st.clone()))]),
+                V::Dict(vec![(st.clone(), V::Int(1))]),
+            ];
+            for f in forms {
+                n += 1;
+                if let Some((class, summary)) = check_value(&f) {
+                    if bad.len() < 2 {
+                        bad.push((class, format!("(binary string {}) {}", core::show(&st), &summary[..summary.len().min(300)]), refb::enc(&f)));
+                    }
+                }
+            }
+        }
+        (n, bad)
+    });
+    let mut bin_docs = 0u64;
+    for (n, bad) in bin_res {
+        bin_docs += n;
+        for (class, summary, doc) in bad {
+            ctx.violation(class, summary, json!({"hex": core::hex(&doc)}));
+        }
+    }
+    evaluations += bin_docs;
+    containers += bin_docs;
+
     let mut ladder = 0u64;
     for depth in 1..=256usize {
         for kind in 0..3 {
@@ -361,9 +403,10 @@ pub fn run(ctx: &Ctx) -> Outcome {
     o.set("evaluations", json!(evaluations));
     o.set("distinct_nontrivial", json!(containers));
     o.set("long_documents", json!(long_docs));
+    o.set("binary_string_documents", json!(bin_docs));
     o.set("filler_lengths", json!(pads.len()));
     o.set("nesting_ladder_values", json!(ladder));
-    o.set("rule", json!("every value of three index-addressable families is generated exactly once (mixed-radix index -> value): lists with repetition and dictionaries with distinct keys of at most `width` children over (depth1) 17 leaves, (depth2) 3 reduced leaves + all depth-1 containers over them, (depth3) those + width-1 depth-2 containers. Non-trivial = a container (all indices give distinct values); the 17 bare leaves are counted in evaluations only. Plus long documents: 12 small values (scalars, empty and nested containers) behind a filler string of every length 0..=600 (thorough 0..=5000) and 2^k-4..=2^k+4 for k = 10..=14 (17), in three layouts (list, dictionary, list of list); plus nesting ladders of depth 1..=256 (lists, dictionaries, alternating) — 256 is the decoder's documented nesting limit."));
+    o.set("rule", json!("every value of three index-addressable families is generated exactly once (mixed-radix index -> value): lists with repetition and dictionaries with distinct keys of at most `width` children over (depth1) 17 leaves, (depth2) 3 reduced leaves + all depth-1 containers over them, (depth3) those + width-1 depth-2 containers. Non-trivial = a container (all indices give distinct values); the 17 bare leaves are counted in evaluations only. Plus binary strings: every byte string of length 0..=2 (65 793) as a bare value, a list element, a dictionary value and a dictionary key. Plus long documents: 12 small values (scalars, empty and nested containers) behind a filler string of every length 0..=600 (thorough 0..=5000) and 2^k-4..=2^k+4 for k = 10..=14 (17), in three layouts (list, dictionary, list of list); plus nesting ladders of depth 1..=256 (lists, dictionaries, alternating) — 256 is the decoder's documented nesting limit."));
     o.set("families", Value::Array(per_family));
     o.set("samples", Value::Array(samples));
     o.set("exhaustive", json!(exhaustive));
